@@ -34,22 +34,41 @@ def findings():
 
 
 def seeded():
-    print('| seeded change | property | what it breaks | own check (quick) | caught by |')
-    print('|---|---|---|---|---|')
+    first = json.load(open(os.path.join(ROOT, 'seeded', 'FIRST_RUN.json')))
+    print('| seeded change | property | what it breaks | first run | now (own quick check) | caught by | first VIOLATION line |')
+    print('|---|---|---|---|---|---|---|')
     for d in sorted(glob.glob(os.path.join(ROOT, 'seeded', '*'))):
         try:
             meta = json.load(open(os.path.join(d, 'meta.json')))
             res = json.load(open(os.path.join(d, 'result.json')))
         except Exception:  # noqa
             continue
-        own = [r for r in res['runs'] if r['check'] == meta['property']]
+        name = os.path.basename(d)
         line = ''
-        for r in own:
-            if r['lines']:
-                line = r['lines'][0].split('replay=')[0].replace('VIOLATION ', '')
-        print('| %s | %s | %s | %s | %s |' % (os.path.basename(d), meta['property'], meta.get('title', '').replace('|', '/'),
-                                             'VIOLATION' if res.get('caught_by_own_check') else 'missed', ', '.join(res.get('caught_by', [])) or '—'))
+        for r in res['runs']:
+            for l in r['lines']:
+                if l.startswith('VIOLATION') and not line:
+                    line = l.split('replay=')[1] if 'replay=' in l else l
+        print('| %s | %s | %s | %s | %s | %s | `%s` |' % (name, meta['property'], (meta.get('title') or '').replace('|', '/')[:150],
+                                                      'missed' if name in first['missed_at_first_run'] else 'caught',
+                                                      'VIOLATION' if res.get('caught_by_own_check') else 'missed', ', '.join(res.get('caught_by', [])) or '—',
+                                                      line.replace('findings/', '')[:70]))
+
+
+def update():
+    import io
+    import contextlib
+    p = os.path.join(ROOT, 'DESIGN.md')
+    s = open(p).read()
+    for key, fn in (('theorems', theorems), ('findings', findings), ('seeded', seeded)):
+        buf = io.StringIO()
+        with contextlib.redirect_stdout(buf):
+            fn()
+        a = s.index('<!-- BEGIN:%s -->' % key) + len('<!-- BEGIN:%s -->' % key)
+        b = s.index('<!-- END:%s -->' % key)
+        s = s[:a] + '\n' + buf.getvalue() + s[b:]
+    open(p, 'w').write(s)
 
 
 if __name__ == '__main__':
-    {'theorems': theorems, 'findings': findings, 'seeded': seeded}[sys.argv[1]]()
+    {'theorems': theorems, 'findings': findings, 'seeded': seeded, 'update': update}[sys.argv[1]]()
